@@ -53,7 +53,8 @@ namespace occa {
       void *destPtr      = ptr + destOffset;
       const void *srcPtr = src->ptr + srcOffset;
 
-      ::memcpy(destPtr, srcPtr, bytes);
+      // Source and destination may be overlapping views of one buffer
+      ::memmove(destPtr, srcPtr, bytes);
     }
 
     void* memory::unwrap() {
